@@ -17,8 +17,12 @@ def _run(cmd, text, env=None, timeout=1800):
         p = subprocess.run(cmd, input=text, stdout=subprocess.PIPE, stderr=subprocess.PIPE, text=True, env=e,
                            timeout=timeout, errors="replace")
         return p.returncode, p.stdout, p.stderr
-    except subprocess.TimeoutExpired:
-        return 124, "", "timeout"
+    except subprocess.TimeoutExpired as ex:
+        # keep what the process had answered before it stopped answering (one flushed line per case)
+        out = ex.stdout or ""
+        if isinstance(out, bytes):
+            out = out.decode("utf-8", "replace")
+        return 124, out, "timeout"
 
 
 def shard(cases, n):
@@ -48,7 +52,7 @@ def run_lines(cmd, cases, env=None, nshards=None, timeout=1800):
                 res[todo[t]] = lines[t]
             if n == len(todo):
                 break
-            res[todo[n]] = "signal %d%s" % (-rc if rc < 0 else rc, " timeout" if rc == 124 else "")
+            res[todo[n]] = "signal %d%s" % (-rc if rc < 0 else rc, " timeout" if rc in (124, -14) else "")
             todo = todo[n + 1:]
             restarts += 1
         for c in todo:
